@@ -2,6 +2,7 @@ import DustVerif.Driver.Time
 import DustVerif.Driver.Hist
 import DustVerif.Driver.Match
 import DustVerif.Driver.Wire
+import DustVerif.Driver.Tree
 open DustVerif.Driver
 
 partial def loopStateless (h : IO.FS.Stream) (out : IO.FS.Stream) (f : String → String) : IO Unit := do
@@ -25,5 +26,6 @@ def main (args : List String) : IO UInt32 := do
   | ["time"] => loopStateless stdin stdout TimeEngine.step; return 0
   | ["wire"] => loopStateless stdin stdout WireEngine.step; return 0
   | ["match"] => loopStateless stdin stdout MatchEngine.step; return 0
+  | ["tree"] => loopStateful stdin stdout TreeEngine.step TreeEngine.defaultSt; return 0
   | ["hist"] => loopStateful stdin stdout HistEngine.step HistEngine.defaultSt; return 0
   | _ => IO.eprintln "usage: dustmodel <engine>"; return 2
